@@ -6,7 +6,7 @@
    the rows gives back exactly sA and sB. *)
 From Coq Require Import QArith ZArith List Bool Arith.
 From LV Require Import Align.DP Align.DPProofs Align.ValidProofs Align.Calign Align.CalignProofs
-  Align.Malign Align.MalignProofs.
+  Align.Malign Align.MalignProofs Align.WeProofs.
 Import ListNotations.
 Local Open Scope nat_scope.
 
@@ -106,6 +106,21 @@ Theorem C01_sw_align :
     end.
 Proof. exact sw_align_valid. Qed.
 Print Assumptions C01_sw_align.
+
+(* _malign.we_align (Waterman-Eggert, all local matches): every returned triple has rows of equal
+   length, no double-gap column, and de-gapped rows that are contiguous sub-lists of the inputs.
+   (Stated for the case that the model's fuelled loop returns; that the fuel (N+1)(M+1) suffices,
+   i.e. termination of the `while True` loop, is not proved - the correspondence check compares
+   the model's result, which would be the error value, with the implementation on every case.) *)
+Theorem C01_we_align_partial :
+  forall (A B : list Z) (sc : list (Z * Z * Q)) (gap : Q) out,
+    we_align A B sc gap = Some out ->
+    Forall (fun t => let '(a, b, _) := t in
+                     length a = length b /\ no_double_gap a b /\
+                     (exists pre suf, A = pre ++ degap a ++ suf) /\
+                     (exists pre suf, B = pre ++ degap b ++ suf)) out.
+Proof. exact we_align_valid. Qed.
+Print Assumptions C01_we_align_partial.
 
 (* the checker that runs on implementation outputs decides validity *)
 Theorem C01_checker_sound :
